@@ -47,6 +47,7 @@ structure FileReport where
   reach : Nat := 0
   fileSize : Nat := 0
   reachPages : List Nat := []
+  view : Option BucketView := none
   freePages : List Nat := []
 
 /-- decode errors met while unfolding are turned into `notATree`; to report them precisely we probe
@@ -65,7 +66,7 @@ def checkBytes (L : Layout) (order : List MetaField) (ba : ByteArray) (pagesize 
     | .ok sum =>
       { ok := true, msg := "ok", dump := dumpView sum.root true, numPages := mt.numPages, txId := mt.txId,
         free := sum.free.length, reach := sum.reach.length, fileSize := ba.size,
-        reachPages := sum.reach ++ sum.freelistRun, freePages := sum.free }
+        reachPages := sum.reach ++ sum.freelistRun, freePages := sum.free, view := some sum.root }
     | .error e =>
       let detail := match e with
         | .notATree p => match decodePage L s pagesize p with
